@@ -3,28 +3,24 @@ use noodles_bgzf as bgzf;
 use noodles_core::Position;
 
 use super::Index;
-use crate::binning_index::index::reference_sequence::{bin::Chunk, parent_id, reg2bin};
+use crate::binning_index::index::reference_sequence::{bin::Chunk, reg2bin};
 
 /// A binned index.
 pub type BinnedIndex = IndexMap<usize, bgzf::VirtualPosition>;
 
 impl Index for BinnedIndex {
     fn min_offset(&self, min_shift: u8, depth: u8, start: Position) -> bgzf::VirtualPosition {
-        let end = start;
-        let mut bin_id = reg2bin(start, end, min_shift, depth);
+        // A record that intersects a region starting at `start` ends at or after `start`, and
+        // so does the interval of the bin it is assigned to. The smallest linear offset over
+        // all bins whose interval ends at or after `start` is therefore a lower bound for the
+        // position of every such record.
+        let start = usize::from(start);
 
-        loop {
-            if let Some(position) = self.get(&bin_id) {
-                return *position;
-            }
-
-            bin_id = match parent_id(bin_id) {
-                Some(id) => id,
-                None => break,
-            }
-        }
-
-        bgzf::VirtualPosition::default()
+        self.iter()
+            .filter(|(id, _)| bin_end(**id, min_shift, depth).is_some_and(|end| end >= start))
+            .map(|(_, position)| *position)
+            .min()
+            .unwrap_or_default()
     }
 
     fn last_first_start_position(&self) -> Option<bgzf::VirtualPosition> {
@@ -42,6 +38,31 @@ impl Index for BinnedIndex {
             })
             .or_insert(chunk.start());
     }
+}
+
+// Returns the 1-based end position of the interval covered by the bin with the given ID.
+fn bin_end(id: usize, min_shift: u8, depth: u8) -> Option<usize> {
+    let mut first_id: usize = 0;
+    let mut bin_count: usize = 1;
+
+    for level in 0..=u32::from(depth) {
+        if id - first_id < bin_count {
+            let shift = u32::from(min_shift) + 3 * (u32::from(depth) - level);
+            let n = id - first_id + 1;
+
+            // Saturate when the bin interval exceeds the addressable range.
+            return if n.leading_zeros() >= shift {
+                Some(n << shift)
+            } else {
+                Some(usize::MAX)
+            };
+        }
+
+        first_id = first_id.checked_add(bin_count)?;
+        bin_count = bin_count.checked_mul(8)?;
+    }
+
+    None
 }
 
 #[cfg(test)]
